@@ -1,5 +1,6 @@
 import MalVerif.Py.TieVisitorPos
 import MalVerif.Proofs.LexRender
+import MalVerif.Proofs.LexPrefix
 /-!
 # The tokens of the model lexer are well-formed numbers
 
